@@ -525,6 +525,13 @@ func init() {
 					return
 				}
 				c.O.Ok().U64(ts).I64(back)
+				if t >= 0 && t < eraEndNs {
+					if back == t {
+						c.Tag("exact")
+					} else {
+						c.Tag("off-by-1ns")
+					}
+				}
 			})
 		}
 		for _, t := range []int64{0, 1, 2, 999999999, nsPerS, nsPerS + 1, eraEndNs - 2, eraEndNs - 1, eraEndNs, eraEndNs + 1,
@@ -728,10 +735,20 @@ func init() {
 					return
 				}
 				c.O.Ok().U64(ts).U64(ts24).I64(est)
+				if send >= 0 && send < eraEndNs && delay >= 0 && delay <= maxDelay {
+					switch e := send - est; {
+					case e == 0:
+						c.Tag("error=0ns")
+					case e == 3815:
+						c.Tag("error=3815ns(max)")
+					case e > 3800:
+						c.Tag("error>3800ns")
+					}
+				}
 			})
 		}
 		delays := []int64{0, 1, 2, 3814, 3815, 3816, nsPerS, 32 * nsPerS, maxDelay - 1, maxDelay, maxDelay + 1, 64 * nsPerS, 64*nsPerS + 1, -1}
-		sends := []int64{0, 1, 63*nsPerS + 999999999, 64 * nsPerS, 64*nsPerS + 1, 1700000000 * nsPerS, 1700000000*nsPerS + 3814, 1700000000*nsPerS + 3815,
+		sends := []int64{1700000000000007629, 1700000000000003814, 0, 1, 63*nsPerS + 999999999, 64 * nsPerS, 64*nsPerS + 1, 1700000000 * nsPerS, 1700000000*nsPerS + 3814, 1700000000*nsPerS + 3815,
 			26562500 * wrap24Ns, 26562500*wrap24Ns - 1, 26562500*wrap24Ns + 1, eraEndNs - 1, eraEndNs - 64*nsPerS, eraEndNs - 64*nsPerS + 3815, eraEndNs, -1}
 		for _, s := range sends {
 			for _, d := range delays {
